@@ -376,8 +376,111 @@ def job_transported(ctx: Ctx, n):
             ctx.eq(f"sum_i w'_i r_i^{k} == (b^{k + 1} - a^{k + 1})/{k + 1}", quad, (b ** (k + 1) - a ** (k + 1)) / (k + 1), p.pc, replay=replay, key=key)
 
 
+def job_integrate(ctx: Ctx, n):
+    """the summation itself: Grid.integrate(f1, ..., fk) == sum_i w_i f1_i ... fk_i for symbolic weights and integrand values, one to three arrays,
+    the same array twice, and complex-valued integrands (no conjugation, real and imaginary part separately)."""
+    from symgrid.angles import SymComplex
+    rt, bg = _mods()
+    npproxy.install(bg)
+    e = ctx.engine
+    ctx.encoded(bg.Grid.integrate)
+    pts = np.empty((n, 1), dtype=object)
+    w = np.empty(n, dtype=object)
+    f, g, h = (np.empty(n, dtype=object) for _ in range(3))
+    zc = np.empty(n, dtype=object)
+    for i in range(n):
+        pts[i, 0], w[i], f[i], g[i], h[i] = real(f"x{i}"), real(f"w{i}"), real(f"f{i}"), real(f"g{i}"), real(f"h{i}")
+        zc[i] = SymComplex(real(f"re{i}"), real(f"im{i}"))
+    grid = bg.Grid(pts, w)
+    key = "Grid.integrate"
+
+    def replay(m):
+        with C03.unpatched(bg):
+            rng = np.random.default_rng(3)
+            ww, ff, gg = rng.uniform(0.1, 1, n), rng.normal(size=n), rng.normal(size=n)
+            zz = rng.normal(size=n) + 1j * rng.normal(size=n)
+            G = bg.Grid(rng.normal(size=(n, 1)), ww)
+            out = dict(real=float(G.integrate(ff)), real_expected=float(np.sum(ww * ff)), two=float(G.integrate(ff, gg)), two_expected=float(np.sum(ww * ff * gg)))
+            zc_ = G.integrate(zz)
+            z2 = G.integrate(zz, ff)
+            out.update(complex=[float(np.real(zc_)), float(np.imag(zc_))], complex_expected=[float(np.sum(ww * zz).real), float(np.sum(ww * zz).imag)])
+            bad = abs(out["real"] - out["real_expected"]) > 1e-12 or abs(out["two"] - out["two_expected"]) > 1e-12 or abs(zc_ - np.sum(ww * zz)) > 1e-12 or abs(z2 - np.sum(ww * zz * ff)) > 1e-12
+            return bool(bad), out
+    cases = {"one real array": ([f], lambda i: f[i]), "two real arrays": ([f, g], lambda i: f[i] * g[i]), "three real arrays": ([f, g, h], lambda i: f[i] * g[i] * h[i]),
+             "the same array twice": ([f, f], lambda i: f[i] * f[i])}
+    for label, (arrs, term) in cases.items():
+        for p in e.run(lambda arrs=arrs: grid.integrate(*arrs)):
+            ctx.paths += 1
+            if p.exc is not None:
+                ctx.fail(f"integrate({label}) returns", f"{type(p.exc).__name__}: {str(p.exc)[:160]}", key=key, replay=replay, model={})
+                continue
+            want = K(0)
+            for i in range(n):
+                want = want + w[i] * term(i)
+            ctx.eq(f"integrate({label}) == sum_i w_i prod_j f_j(i)", p.result, want, p.pc, key=key, replay=replay)
+    for label, arrs, term in (("one complex array", [zc], lambda i: (zc[i].re, zc[i].im)), ("complex and real array", [zc, f], lambda i: (zc[i].re * f[i], zc[i].im * f[i]))):
+        for p in e.run(lambda arrs=arrs: grid.integrate(*arrs)):
+            ctx.paths += 1
+            if p.exc is not None:
+                ctx.fail(f"integrate({label}) returns", f"{type(p.exc).__name__}: {str(p.exc)[:160]}", key=key, replay=replay, model={})
+                continue
+            wr, wi = K(0), K(0)
+            for i in range(n):
+                a_, b_ = term(i)
+                wr, wi = wr + w[i] * a_, wi + w[i] * b_
+            res = p.result.item() if isinstance(p.result, np.ndarray) else p.result
+            if not isinstance(res, SymComplex):
+                ctx.fail(f"integrate({label}) is complex", f"got {type(res).__name__}", key=key, replay=replay, model={})
+                continue
+            ctx.eq(f"Re integrate({label}) == sum_i w_i Re f_i", res.re, wr, p.pc, key=key, replay=replay)
+            ctx.eq(f"Im integrate({label}) == sum_i w_i Im f_i (no conjugation)", res.im, wi, p.pc, key=key, replay=replay)
+    ctx.twin(())
+
+
+def job_dtype(ctx: Ctx):
+    """a rule whose nodes are stored with an integer dtype (e.g. Simpson nodes -1, 0, 1) is the same rule: every class gives the same transformed grid
+    as for the float copy of the nodes.  dtype is not a symbolic quantity: ground enumeration over the 12 classes (float code)."""
+    rt, bg = _mods()
+    ctx.encoded(rt.BaseTransform.transform_1d_grid)
+    import warnings
+    warnings.simplefilter("ignore")
+    bad, rejected = {}, []
+    with C03.unpatched(rt, bg):
+        mk = {"BeckeRTransform": lambda: rt.BeckeRTransform(0.1, 1.3), "LinearFiniteRTransform": lambda: rt.LinearFiniteRTransform(0.0, 5.0), "LinearFiniteRTransform[0,1]": lambda: rt.LinearFiniteRTransform(0.0, 1.0),
+              "MultiExpRTransform": lambda: rt.MultiExpRTransform(0.1, 1.3), "KnowlesRTransform": lambda: rt.KnowlesRTransform(0.1, 1.3, 2), "HandyRTransform": lambda: rt.HandyRTransform(0.1, 1.3, 2),
+              "HandyModRTransform": lambda: rt.HandyModRTransform(0.1, 9.7, 2), "IdentityRTransform": lambda: rt.IdentityRTransform(),
+              "LinearInfiniteRTransform": lambda: rt.LinearInfiniteRTransform(0.1, 7.3, b=4), "ExpRTransform": lambda: rt.ExpRTransform(0.1, 7.3, b=4), "PowerRTransform": lambda: rt.PowerRTransform(0.1, 7.3, b=4),
+              "HyperbolicRTransform": lambda: rt.HyperbolicRTransform(0.6, 0.2)}
+        for name, make in mk.items():
+            unit = name.split("[")[0] in ("BeckeRTransform", "LinearFiniteRTransform", "MultiExpRTransform", "KnowlesRTransform", "HandyRTransform", "HandyModRTransform")
+            xi = np.array([-1, 0, 1]) if unit else np.array([0, 1, 2, 3])
+            wi = np.array([1, 4, 1]) if unit else np.array([1, 2, 2, 1])
+            dom = (-1, 1) if unit else (0, 3)
+            try:
+                gi = make().transform_1d_grid(bg.OneDGrid(xi, wi, dom))
+                gf = make().transform_1d_grid(bg.OneDGrid(xi.astype(float), wi.astype(float), dom))
+                ok = np.allclose(gi.points, gf.points, rtol=1e-13, atol=0, equal_nan=True) and np.allclose(gi.weights, gf.weights, rtol=1e-13, atol=0, equal_nan=True)
+                if not ok:
+                    bad[name] = dict(integer_nodes=dict(points=gi.points.tolist(), weights=gi.weights.tolist()), float_nodes=dict(points=gf.points.tolist(), weights=gf.weights.tolist()))
+                tf = make()
+                for meth in ("transform", "deriv", "deriv2", "deriv3"):
+                    a_, b_ = getattr(tf, meth)(xi[1:-1] if not unit else xi), getattr(make(), meth)((xi[1:-1] if not unit else xi).astype(float))
+                    if not np.allclose(a_, b_, rtol=1e-13, atol=0, equal_nan=True):
+                        bad[f"{name}.{meth}"] = dict(integer_input=np.asarray(a_, float).tolist(), float_input=np.asarray(b_, float).tolist())
+            except (ValueError, TypeError) as ex:
+                # NumPy refuses some integer operations outright ("Integers to negative integer powers are not allowed"): an explicit rejection is not a
+                # wrong grid; only a call that returns is compared
+                rejected.append(f"{name}: {str(ex)[:60]}")
+            except Exception as ex:
+                bad[name] = f"{type(ex).__name__}: {ex}"
+    ctx.note(f"integer-dtype input rejected explicitly by: {rejected}")
+    (ctx.ok if not bad else ctx.fail)("integer-dtype nodes/weights, where accepted, give the same transformed grid and derivatives as their float copy (12 classes)", detail=str(bad)[:300], key="transform_1d_grid:integer-dtype",
+                                      how="ground enumeration (not a solver obligation)", replay=(lambda m: (True, bad)), **({} if not bad else dict(model={})))
+    ctx.twins_sat += 1
+
+
 def jobs(tier):
-    js = [Job("transported/2", job_transported, 2)]          # n = 3 (degree 5): z3 returns unknown after 14 min - bound stated
+    js = [Job("transported/2", job_transported, 2), Job("integrate/n=3", job_integrate, 3), Job("dtype/integer-nodes", job_dtype)]          # n = 3 (degree 5): z3 returns unknown after 14 min - bound stated
     for n in ((1, 2, 3) if tier == "quick" else (1, 2, 3, 4)):
         for direction in ("inc", "dec"):
             for infend in (None, "trim", "raw"):
